@@ -43,7 +43,7 @@ def run(pid, tier, seed, rundir, findings, t0):
                     transitions=max(1, mcres["transitions"] + len(rows)),
                     mc_states=mcres["states"], mc_transitions=mcres["transitions"], mc_models=mcres["models"],
                     traces_validated_against_impl=1, evaluations=len(rows) * 11, distinct_nontrivial=nontriv,
-                    rule="operand grid = sign x magnitude {0,1,2,3,5,7,10,9999,10000,2^64,MAX/3,MAX/2,MAX/2+1,MAX-2,MAX-1,MAX}; every ordered pair is a row with 11 operations "
+                    rule="operand grid = sign x magnitude {0,1,2,3,5,7,10,9999,10000,2^64-1,2^64,2^64+1,10^19,2^127-1,2^127,2^127+1,MAX/2,MAX/3,10^38,MAX-2,MAX-1,MAX}; every ordered pair is a row with 11 operations "
                          "(add sub mul div, checked forms, neg, abs, comparisons) evaluated on the real type; non-trivial = a zero operand, equal magnitudes with opposite signs, or a 128-bit-boundary operand",
                     antecedent_hits=hits, samples=samples, exhaustive=True,
                     checker_cmd="java tlc2.TLC -config SInt.cfg SInt.tla (TRACE=table) + MC_SInt")
